@@ -278,7 +278,19 @@ impl AnalyzeExpression for Expression {
             Self::IntLiteral(_) => Some(DataType::Int),
             Self::Variable(v) => v.analyze(table),
             Self::Binary(b) => b.analyze(table),
-            Self::Unary(u) => u.expr.analyze(table),
+            Self::Unary(u) => {
+                // the sign is an arithmetic operator: it needs an integer and yields one
+                let operand_type = u.expr.analyze(table);
+                if let Some(operand_type) = &operand_type {
+                    if operand_type != &DataType::Int {
+                        u.info.append_error(SplError(
+                            u.to_range(),
+                            SemanticErrorMessage::ArithmeticOperatorNonInteger.into(),
+                        ));
+                    }
+                }
+                operand_type.map(|_| DataType::Int)
+            }
             Self::Bracketed(b) => b.expr.analyze(table),
             Self::Error(_) => None,
         }
